@@ -271,5 +271,99 @@ theorem run_AP : ∀ n, AP (run g inp n) := by
 theorem atomic_preserved {n : Nat} {e : Expr} {s s' : S0} {ps : List Pair}
     (h : run g inp n e s = .ok s' ps) : s'.atomic = s.atomic := run_AP g inp n e s s' ps h
 
+/-! ### "eventually" -/
+
+def Evt (P : Nat → Prop) : Prop := ∃ N, ∀ n, N ≤ n → P n
+
+theorem Evt.mono {P Q : Nat → Prop} (h : Evt P) (f : ∀ n, P n → Q n) : Evt Q := by
+  obtain ⟨N, hN⟩ := h
+  exact ⟨N, fun n hn => f n (hN n hn)⟩
+
+theorem Evt.and {P Q : Nat → Prop} (h1 : Evt P) (h2 : Evt Q) : Evt (fun n => P n ∧ Q n) := by
+  obtain ⟨N1, h1⟩ := h1
+  obtain ⟨N2, h2⟩ := h2
+  exact ⟨N1 + N2, fun n hn => ⟨h1 n (by omega), h2 n (by omega)⟩⟩
+
+theorem Evt.const {p : Prop} (h : p) : Evt (fun _ => p) := ⟨0, fun _ _ => h⟩
+
+theorem Evt.shift {P : Nat → Prop} (h : Evt (fun n => P (n + 1))) : Evt P := by
+  obtain ⟨N, hN⟩ := h
+  refine ⟨N + 1, fun n hn => ?_⟩
+  obtain ⟨m, rfl⟩ : ∃ m, n = m + 1 := ⟨n - 1, by omega⟩
+  exact hN m (by omega)
+
+/-- two budgets (fuel of `rec`, budget of a loop) -/
+def Evt2 (P : Nat → Nat → Prop) : Prop := ∃ N, ∀ n k, N ≤ n → N ≤ k → P n k
+
+theorem Evt2.diag {P : Nat → Nat → Prop} (h : Evt2 P) : Evt (fun n => P n n) := by
+  obtain ⟨N, hN⟩ := h
+  exact ⟨N, fun n hn => hN n n hn hn⟩
+
+variable (g' : Grammar)
+
+/-- with enough fuel the target grammar answers `r` -/
+def Tgt (e' : Expr) (s : S0) (r : R0) : Prop := Evt (fun n => run g' inp n e' s = r)
+
+theorem Tgt.of_run {e' : Expr} {s : S0} {r : R0} {n : Nat} (h : run g' inp n e' s = r) (hr : r ≠ .oof) :
+    Tgt inp g' e' s r :=
+  ⟨n, fun _ hm => Conv.mono g' inp h hr hm⟩
+
+theorem Tgt.of_conv {e' : Expr} {s : S0} {r : R0} (h : Conv g' inp e' s r) : Tgt inp g' e' s r := by
+  obtain ⟨n, hn, hr⟩ := h
+  exact Tgt.of_run inp g' hn hr
+
+theorem Tgt.conv {e' : Expr} {s : S0} {r : R0} (h : Tgt inp g' e' s r) (hr : r ≠ .oof) :
+    Conv g' inp e' s r := by
+  obtain ⟨N, hN⟩ := h
+  exact ⟨N, hN N (Nat.le_refl _), hr⟩
+
+theorem Tgt.of_step {e' : Expr} {s : S0} {r : R0}
+    (h : Evt (fun n => step g' inp n (run g' inp n) e' s = r)) : Tgt inp g' e' s r :=
+  Evt.shift h
+
+/-- `e` under the source semantics `rec` is simulated by `e'` in the target grammar, from
+    states whose atomicity flag is `a` -/
+def SimAt (rec : Sem0) (a : Bool) (e e' : Expr) : Prop :=
+  ∀ s, s.atomic = a → rec e s ≠ .oof → Tgt inp g' e' s (rec e s)
+
+/-! ### cross-grammar congruence of the helpers -/
+
+theorem ruleApply_sim {rec : Sem0} (name : String) (mod : Nat) (body body' : Expr) (s : S0)
+    (hb : SimAt inp g' rec (ruleAtomic name mod s.atomic) body body')
+    (hne : ruleApply rec name mod body s ≠ .oof) :
+    Evt (fun n => ruleApply (run g' inp n) name mod body' s = ruleApply rec name mod body s) := by
+  unfold ruleApply at hne ⊢
+  have h1 : rec body { s with atomic := ruleAtomic name mod s.atomic } ≠ .oof := by
+    intro e; rw [e] at hne; exact hne rfl
+  refine (hb _ rfl h1).mono ?_
+  intro n hn
+  rw [hn]
+
+theorem trySkip_sim {rec : Sem0} (r r' : Option Rule) (s : S0)
+    (hr : match r, r' with
+      | none, none => True
+      | some x, some x' => x'.name = x.name ∧ x'.mod = x.mod ∧
+          SimAt inp g' rec (ruleAtomic x.name x.mod s.atomic) x.body x'.body
+      | _, _ => False)
+    (hne : trySkip rec r s ≠ .stop .oof) :
+    Evt (fun n => trySkip (run g' inp n) r' s = trySkip rec r s) := by
+  cases r with
+  | none =>
+    cases r' with
+    | none => exact Evt.const rfl
+    | some x' => exact absurd hr id
+  | some x =>
+    cases r' with
+    | none => exact absurd hr id
+    | some x' =>
+      obtain ⟨h1, h2, h3⟩ := hr
+      unfold trySkip at hne ⊢
+      simp only [] at hne ⊢
+      have : ruleApply rec x.name x.mod x.body s ≠ .oof := by
+        intro e; rw [e] at hne; exact hne rfl
+      refine (ruleApply_sim inp g' x.name x.mod x.body x'.body s h3 this).mono ?_
+      intro n hn
+      rw [h1, h2, hn]
+
 end L0
 end Pest
